@@ -231,6 +231,8 @@ func runC15(rep *TReport, raw json.RawMessage) {
 			claims["exp"] = float64(now.Add(Tick).Unix()) + 0.5
 		case "past_frac":
 			claims["exp"] = float64(now.Add(-Tick).Unix()) + 0.5
+		case "just_past":
+			claims["exp"] = now.Add(-time.Second).Unix()
 		}
 		if f("jti") == "fresh" {
 			claims["jti"] = freshJTI()
@@ -322,16 +324,20 @@ func runC15(rep *TReport, raw json.RawMessage) {
 			claims["exp"] = float64(now.Add(Tick).Unix()) + 0.5
 		case "past_frac":
 			claims["exp"] = float64(now.Add(-Tick).Unix()) + 0.5
+		case "just_past":
+			claims["exp"] = now.Add(-time.Second).Unix()
 		}
 		switch f("nbf") {
 		case "past":
 			claims["nbf"] = now.Add(-Tick).Unix()
 		case "future":
 			claims["nbf"] = now.Add(Tick / 2).Unix()
+		case "just_future":
+			claims["nbf"] = now.Add(2 * time.Second).Unix()
 		}
 		if f("iat") == "present" {
 			claims["iat"] = now.Unix()
-			if f("exp") == "past" || f("exp") == "past_frac" { // an assertion that expired was issued before it expired
+			if strings.Contains(f("exp"), "past") { // an assertion that expired was issued before it expired
 				claims["iat"] = now.Add(-2 * Tick).Unix()
 			}
 		}
